@@ -465,6 +465,20 @@ func genC16(r *simrt.Rand, tier string) any {
 		sc.Stalls = append(sc.Stalls, simfs.Fault{Op: []string{"Lstat", "OpenFile", "File.WriteAt", "Stat", "Create", ""}[r.Int(6)], Nth: 1 + r.Int(12), Kind: "stall",
 			Stall: time.Duration([]int{1, 50, 700, 5000, 40000}[r.Int(5)]) * time.Millisecond})
 	}
+	// bias (60%): an early, long stall with an update placed inside it and a client that starts at once,
+	// so that most runs really exercise the drain window
+	if r.Pct(60) {
+		sc.Stalls = append(sc.Stalls, simfs.Fault{Op: []string{"Lstat", "OpenFile", "Stat", ""}[r.Int(4)], Nth: 1 + r.Int(5), Kind: "stall",
+			Stall: time.Duration([]int{700, 5000}[r.Int(2)]) * time.Millisecond})
+		sc.Clients[0].StartUs = 0
+		sc.Clients[1].StartUs = []int{0, 500, 20000}[r.Int(3)]
+		sc.Admin[0].AtUs = []int{2000, 50000, 400000}[r.Int(3)]
+		for i := 1; i < len(sc.Admin); i++ {
+			if sc.Admin[i].AtUs < sc.Admin[i-1].AtUs {
+				sc.Admin[i].AtUs = sc.Admin[i-1].AtUs
+			}
+		}
+	}
 	return sc
 }
 
